@@ -5,7 +5,7 @@ numbers, $m* maps from unquoted strings to numbers), so whatever declaration a r
 scoping rules, the program stays well-typed. The generator tracks which names are *certainly* defined at each
 point (declared earlier in an enclosing block, or global) and only references those.
 """
-from .ast import S
+from .ast import S, relax
 
 PROPS = ["a", "b", "c", "w", "x-y", "z"]
 SELS = ["a", ".b", "#c", ".d e", "f > g", "h, i", ".j:hover"]
@@ -23,6 +23,8 @@ class Gen:
         self.loop_depth = 0
         self.call_depth = 0
         self.control_depth = 0   # functions/mixins may not be declared inside control directives
+        # share of binary operations printed without their own parentheses (relying on precedence/associativity)
+        self.relax_p = rng.choice([0.0, 0.5, 0.5, 1.0])
 
     # ---------------------------------------------------------------- names
     def fresh(self, t):
@@ -42,6 +44,10 @@ class Gen:
 
     # ---------------------------------------------------------------- expressions
     def expr(self, t, scope, depth=2):
+        e = self._expr(t, scope, depth)
+        return relax(e, self.rng, self.relax_p) if self.relax_p else e
+
+    def _expr(self, t, scope, depth=2):
         rng = self.rng
         names = [n for n in scope if n[0] == t]
         if t == "n":
